@@ -37,6 +37,8 @@ type histSpec struct {
 	Probes func(declared []string, rf *zn.Ref) []histOp
 	// Key adds to the state key (beyond the canonical values of all names).
 	WithText bool
+	// Blind: every history of >= 3 operations is also run with a single observation at its end.
+	Blind    bool
 	SetupRef func(rf *zn.Ref)
 	ObjProps []string
 	Sig      func(f *mc.Failure, labels []string) string
@@ -54,17 +56,21 @@ type histNode struct {
 }
 
 func (sp *histSpec) program(hist []histOp, extra []histOp, declared []string) *zn.Program {
+	return sp.programObs(hist, extra, false)
+}
+
+// programObs: blind = observe only once, after the last operation (an observation
+// may itself repair or refresh hidden state, e.g. a lazily compacted key order).
+func (sp *histSpec) programObs(hist []histOp, extra []histOp, blind bool) *zn.Program {
 	body := append([]zn.Stmt{}, sp.Prelude...)
 	decl := []string{}
-	for _, op := range hist {
+	n := len(hist) + len(extra)
+	for i, op := range append(append([]histOp{}, hist...), extra...) {
 		body = append(body, op.Stmts...)
 		decl = append(decl, op.Declares...)
-		body = append(body, sp.Observe(decl)...)
-	}
-	for _, op := range extra {
-		body = append(body, op.Stmts...)
-		decl = append(decl, op.Declares...)
-		body = append(body, sp.Observe(decl)...)
+		if !blind || i == n-1 {
+			body = append(body, sp.Observe(decl)...)
+		}
 	}
 	return &zn.Program{Imports: sp.Imports, Body: body}
 }
@@ -229,6 +235,18 @@ func (sp *histSpec) explore(c *mc.Ctx, maxLen int) {
 			f, rf, errored, open := sp.run(part, hist, extra)
 			if f != nil {
 				c.Fail(*f)
+			}
+			if f == nil && !open && sp.Blind && part == "op" && len(hist) >= 2 {
+				// the same history observed only at its end
+				var labels []string
+				for _, op := range append(append([]histOp{}, hist...), extra...) {
+					labels = append(labels, op.Label)
+				}
+				prog := sp.programObs(hist, extra, true)
+				if fb, _, _, ob := sp.compare("blind", prog, zn.Render(prog, nil), labels); fb != nil && !ob {
+					c.Fail(*fb)
+				}
+				c.Stat("histories_observed_only_at_the_end", 1)
 			}
 			if !open {
 				c.Eval(true)
